@@ -1,5 +1,5 @@
 SPECIFICATION TSpec
 CONSTRAINT Track
-INVARIANT SvcInv
+INVARIANT TraceInv
 POSTCONDITION Accepted
 CHECK_DEADLOCK FALSE
